@@ -154,6 +154,16 @@ func C06(r *core.Run) {
 		cases = append(cases, c06Case{ID: id, BodyLen: []int{10, 5000, 10, 3900, 65536}[i], Chunks: 1 + i, HeaderMs: hm,
 			Attempts: []c06Fault{{Kind: "refused", At: -2}, {Kind: "refused", At: -2}, {Kind: "refused", At: -2}}})
 	}
+	// an early 5xx with a reply body from a proxy that then stops reading without closing, while a response far larger
+	// than the socket buffers is streaming: the handler must still be released
+	for i, at := range []int{0, 3000, 100, 70000} {
+		if r.Quick() && i >= 2 {
+			break
+		}
+		id := fmt.Sprintf("s%d-%d", r.Seed, len(cases))
+		cases = append(cases, c06Case{ID: id, BodyLen: []int{16 << 20, 24 << 20, 16<<20 + 1, 32 << 20}[i], Chunks: 16 + i,
+			Attempts: []c06Fault{{Kind: "e5xx-body-hold", At: at}, {Kind: "ok", At: -1}}})
+	}
 	if !r.Quick() {
 		// exhaustive pairs of early faults on the sizes around the replay limit
 		early := []c06Fault{}
